@@ -569,7 +569,7 @@ theorem pointer_to_pointer (h : Heap) (a : Nat) (i : Intent) :
   · have := arg_call_equivalence h ⟨.native, .reference, i, true⟩ (.ptr (.heap a)) (by cases i <;> decide) ⟨a, rfl⟩
     simpa [expected] using this
 
-/-- enum by pointer / reference (after the repair eb11a8b): the pointer to the enum's int form is
+/-- enum by pointer / reference (after the repair f9c4cc7): the pointer to the enum's int form is
     converted as a pointer, the callee works on the caller's cell -/
 theorem enum_indirect (h : Heap) (a : Nat) (i : Intent) :
     runArg h .pointer (planOf ⟨.enum, .pointer, i, false⟩) (.ptr (.heap a)) = some (.obj .pointer a) ∧
@@ -580,7 +580,7 @@ theorem enum_indirect (h : Heap) (a : Nat) (i : Intent) :
   · have := arg_call_equivalence h ⟨.enum, .reference, i, false⟩ (.ptr (.heap a)) (by cases i <;> decide) ⟨a, rfl⟩
     simpa [expected] using this
 
-/-- witness about the code before eb11a8b: it applied the by-value conversion `static_cast<E>(p)` to
+/-- witness about the code before f9c4cc7: it applied the by-value conversion `static_cast<E>(p)` to
     the pointer; that plan is ill-typed (the wrapper did not compile) -/
 def oldEnumIndirectPlan (m : Mode) : ArgPlan :=
   ⟨[.arg], [.castEnum], some (if m = .reference then .deref .cxx else .plain .cxx), []⟩
